@@ -59,7 +59,26 @@ func c11member(sym byte) (string, net.IP, uint16) {
 	return "", nil, 0
 }
 
-func c11short(s string) string { return strings.ReplaceAll(s, c11nameA, "a{200}") }
+// c11short abbreviates long padding: a run of 16 or more equal bytes becomes "x{n}".
+func c11short(s string) string {
+	if len(s) < 16 {
+		return s
+	}
+	var sb strings.Builder
+	for i := 0; i < len(s); {
+		j := i
+		for j < len(s) && s[j] == s[i] {
+			j++
+		}
+		if j-i >= 16 {
+			fmt.Fprintf(&sb, "%c{%d}", s[i], j-i)
+		} else {
+			sb.WriteString(s[i:j])
+		}
+		i = j
+	}
+	return sb.String()
+}
 
 // ---------------------------------------------------------------------------
 // reference model
@@ -233,8 +252,9 @@ type c11opts struct {
 	extra      string // symbols appended after the history (C12: "cx")
 	failAt     int    // vos fault plan (0 = none)
 	shortWrite bool
-	heal       bool // C12: after the event in which the fault hit let 31 s pass
+	heal       bool              // C12: after the event in which the fault hit let 31 s pass
 	image      map[string]string // start from this directory content (a restart) instead of an empty one
+	table      map[byte]c11tsym  // symbols defined by the scenario (burst); they override the fixed alphabet
 }
 
 type c11res struct {
@@ -339,7 +359,24 @@ func c11exec(o c11opts) *c11res {
 			}
 		}
 		for i := 0; i < len(all); i++ {
-			switch sym := all[i]; sym {
+			sym := all[i]
+			if d, ok := o.table[sym]; ok {
+				sym = 0
+				if d.kind == 'K' {
+					clock.Witness(serf.LamportTime(d.val))
+				} else {
+					e := d.event()
+					r.pushed = append(r.pushed, c11describe(e))
+					select {
+					case inCh <- e:
+					default:
+						panic("c11: input channel full")
+					}
+					vsched.Quiesce()
+				}
+			}
+			switch sym {
+			case 0:
 			case 'c':
 				clock.Increment()
 			case 'w':
@@ -516,6 +553,8 @@ type c11replay struct {
 	History    string `json:"history"`
 	Point      int    `json:"point"`
 	ShortWrite bool   `json:"short_write,omitempty"`
+	Burst      string `json:"burst,omitempty"`
+	Shift      int    `json:"shift,omitempty"`
 }
 
 func init() {
@@ -523,9 +562,9 @@ func init() {
 		ID:    "C11",
 		Level: "fault_enumeration",
 		Rule: "crash_images: for every history over the 11-symbol alphabet {join a, join a at a new address, join b, leave a, failed b, user event LTime 1/3, query LTime 2, local clock +1, +600 ms, +500 ms (ticker)} of length 1..4 (quick) / 1..5 plus the length-6 histories that start with the join of a or of b (thorough), for minCompactSize 1 and 64, the real NewSnapshotter is driven over the in-memory directory and shut down; one case = one crash point (after each logged open/write/sync/close/remove/rename, plus 'before the first'), recovered by a fresh real NewSnapshotter on the directory image of that point. " +
-			"Member a has a 200-byte name so that size-triggered compactions with a non-empty rejoin set happen inside these histories. non-trivial = the directory image differs from the previous crash point's and at least one line had reached the snapshot file",
+			"Member a has a 200-byte name so that size-triggered compactions with a non-empty rejoin set happen inside these histories. non-trivial = the directory image differs from the previous crash point's and at least one line had reached the snapshot file. burst/*: two scripted histories in which 18-23 members with ~200-byte names (node-1 is a prefix of node-10..19) join, two leave/fail, one rejoins at a new address and the clocks jump from 1 to 150 within one flush interval, so the snapshotter's 4096-byte bufio.Writer hands the OS a chunk that ends in the middle of a line; the length of the second member's name is swept over 460 values so that the chunk boundary falls on every byte of the not-alive / alive / clock / event-clock / query-clock lines of interest; every crash point is checked as above with the reference reading complete lines only; non-trivial there = the snapshot file ends in an unterminated fragment at the crash point",
 		Assumptions: []string{
-			"process-crash semantics: bytes handed to File.Write survive, bytes still in the snapshotter's bufio.Writer do not; each Write call is atomic; fsync is irrelevant for survival",
+			"process-crash semantics: bytes handed to File.Write survive, bytes still in the snapshotter's bufio.Writer do not; each Write call is atomic (a torn last line arises only where the buffered writer itself splits a line over two Write calls, which the burst scenarios force); fsync is irrelevant for survival",
 			"events are pushed at quiescent points (the snapshotter keeps up); the two snapshotter threads run under the deterministic default schedule",
 			"'data it had written' is read off the snapshot file itself: w(k) = the largest reference-line index the file at <path> has held at or before crash point k (content of <path>.compact does not count until it is renamed into place); a recovery is accepted iff it equals the reference state after i lines for some i >= w(k)",
 			"the Lamport clock starts at 1 as in serf.Create (a zero clock would make the snapshotter record 2^64-1)",
@@ -564,6 +603,10 @@ func c11run(ctx *vc.Ctx) {
 			return
 		}
 		scn := ctx.Scn("replay", "crash_images")
+		if rp.Burst != "" {
+			c11burstCase(ctx, scn, rp.Burst, rp.Shift, true)
+			return
+		}
 		c11history(ctx, scn, rp.MinCompact, rp.History, true)
 		return
 	}
@@ -589,20 +632,64 @@ func c11run(ctx *vc.Ctx) {
 		})
 	}
 	c11continueRun(ctx, &idx)
+	c11burstRun(ctx, &idx)
 }
 
 // c11history runs one history and checks every crash point.
 func c11history(ctx *vc.Ctx, scn *vc.Scenario, minCompact int, h string, verbose bool) {
-	m := c11simulate(h)
-	r := c11exec(c11opts{minCompact: minCompact, syms: h})
-	rp := c11replay{Check: "C11", MinCompact: minCompact, History: h}
+	c11crashPoints(ctx, scn, &c11job{
+		minCompact: minCompact, label: fmt.Sprintf("history %q", h), nsyms: len(h),
+		symName: func(i int) string { return fmt.Sprintf("%q", h[i]) },
+		m:       c11simulate(h),
+		r:       c11exec(c11opts{minCompact: minCompact, syms: h}),
+		rp:      c11replay{Check: "C11", MinCompact: minCompact, History: h},
+		verbose: verbose, sample: len(h) >= 3,
+	})
+}
+
+// c11job is one executed history together with its reference model.
+type c11job struct {
+	minCompact int
+	label      string
+	nsyms      int
+	symName    func(i int) string
+	m          *c11model
+	r          *c11res
+	rp         c11replay
+	verbose    bool
+	sample     bool
+	burst      bool // burst scenario: signatures name the torn line, non-trivial = torn tail
+}
+
+// c11tornTail classifies an unterminated fragment at the end of the snapshot file.
+func c11tornTail(content string) string {
+	i := strings.LastIndexByte(content, '\n')
+	frag := content[i+1:]
+	if frag == "" {
+		return ""
+	}
+	for _, p := range []string{"not-alive: ", "alive: ", "event-clock: ", "query-clock: ", "clock: "} {
+		if strings.HasPrefix(frag, p) {
+			kind := strings.TrimSuffix(p, ": ")
+			if c11refReplay(content+"\n") != c11refReplay(content) {
+				return kind + " (readable as a shorter line)"
+			}
+			return kind + " (no effect if read)"
+		}
+	}
+	return "keyword"
+}
+
+// c11crashPoints checks every crash point of one executed history.
+func c11crashPoints(ctx *vc.Ctx, scn *vc.Scenario, j *c11job) {
+	m, r, rp, minCompact := j.m, j.r, j.rp, j.minCompact
 	if len(r.x.Panics) > 0 {
 		p := r.x.Panics[0]
-		ctx.Violation(scn.Name, "panic without any fault: "+c11serfFrame(p.Stack), fmt.Sprintf("history %q minCompact=%d: %s\n%s", h, minCompact, p.Value, p.Stack), rp)
+		ctx.Violation(scn.Name, "panic without any fault: "+c11serfFrame(p.Stack), fmt.Sprintf("%s minCompact=%d: %s\n%s", j.label, minCompact, p.Value, p.Stack), rp)
 		scn.Case("panic", true)
 		// the operations logged up to the panic are still crash points
 	} else if r.x.CapHit || !r.rootEnd {
-		ctx.Fail("C11: history %q did not run to completion (cap=%v blocked=%+v startFail=%q)", h, r.x.CapHit, r.x.Blocked, r.startFail)
+		ctx.Fail("C11: %s did not run to completion (cap=%v blocked=%+v startFail=%q)", j.label, r.x.CapHit, r.x.Blocked, r.startFail)
 		return
 	}
 	ops := r.fs.Log
@@ -611,13 +698,14 @@ func c11history(ctx *vc.Ctx, scn *vc.Scenario, minCompact int, h string, verbose
 	base, baseIdx, had := "", 0, false
 	img := map[string]string{}
 	var rec c11rec
+	torn := ""
 	evOf := func(k int) int { // index of the history symbol during which op k was issued
 		for i, e := range r.evOp {
 			if k <= e {
 				return i
 			}
 		}
-		return len(h)
+		return j.nsyms
 	}
 	for k := 0; k <= len(ops); k++ {
 		changed := k == 0
@@ -626,7 +714,9 @@ func c11history(ctx *vc.Ctx, scn *vc.Scenario, minCompact int, h string, verbose
 			img = op.Image
 			changed = true
 			c, ok := img[c11path]
+			torn = ""
 			if ok {
+				torn = c11tornTail(c)
 				x := c11refReplay(c)
 				newBase := !had || (op.Kind == "rename" && op.Path2 == c11path) || !strings.HasPrefix(c, base)
 				t := -1
@@ -681,6 +771,9 @@ func c11history(ctx *vc.Ctx, scn *vc.Scenario, minCompact int, h string, verbose
 			nxt = c11opName(before)
 		}
 		out := "ok"
+		if j.burst && torn != "" {
+			out = "ok, torn " + torn
+		}
 		if !ok {
 			class := "state-lost"
 			if rec.fail != "" {
@@ -697,43 +790,55 @@ func c11history(ctx *vc.Ctx, scn *vc.Scenario, minCompact int, h string, verbose
 				}
 			}
 			sig := fmt.Sprintf("%s crash after=%s before=%s", class, pos, nxt)
+			if j.burst && torn != "" {
+				sig = fmt.Sprintf("%s crash while the snapshot file ends in a torn line: %s", class, torn)
+			}
 			out = sig
 			rp.Point = k
 			ev := evOf(k)
 			during := "shutdown"
 			if k <= r.startOp {
 				during = "start-up"
-			} else if ev < len(h) {
-				during = fmt.Sprintf("event %d (%q)", ev+1, h[ev])
+			} else if ev < j.nsyms {
+				during = fmt.Sprintf("event %d (%s)", ev+1, j.symName(ev))
 			}
 			var ls []string
 			for _, l := range m.lines {
 				ls = append(ls, l.String())
 			}
+			tornText := ""
+			if torn != "" {
+				c := img[c11path]
+				tornText = fmt.Sprintf("\nthe file ends in the unterminated fragment %q", c11short(c[strings.LastIndexByte(c, '\n')+1:]))
+			}
 			ctx.Violation(scn.Name, sig, fmt.Sprintf(
-				"history %q minCompactSize=%d, crash after file operation %d (%s) and before %s, during %s.\n"+
-					"reference lines: %s\nthe snapshot file had held the state after line %d: [%s]\n"+
+				"%s minCompactSize=%d, crash after file operation %d (%s) and before %s, during %s.\n"+
+					"reference lines: %s\nthe snapshot file had held the state after line %d: [%s]%s\n"+
 					"directory at the crash: %s\nrestart recovers [%s]%s, which is not the state after >= %d lines (final reference state [%s])\noperations around: %s",
-				h, minCompact, k, pos, nxt, during, strings.Join(ls, " / "), w, m.states[w], c11imageText(img), rec.key, rec.fail, w, m.states[n], c11opList(ops, k-6, k+3)), rp)
+				j.label, minCompact, k, pos, nxt, during, strings.Join(ls, " / "), w, m.states[w], tornText, c11imageText(img), rec.key, rec.fail, w, m.states[n], c11opList(ops, k-6, k+3)), rp)
 		}
-		if verbose {
-			fmt.Printf("  point %d after=%s w=%d recovered=[%s] %s\n", k, pos, w, rec.key, out)
+		if j.verbose {
+			fmt.Printf("  point %d after=%s w=%d torn=%q recovered=[%s] %s\n", k, pos, w, torn, rec.key, out)
 		}
-		scn.Case(out, changed && w > 0)
+		if j.burst {
+			scn.Case(out, torn != "")
+		} else {
+			scn.Case(out, changed && w > 0)
+		}
 	}
-	if len(scn.Samples) < 1 && len(h) >= 3 && len(ops) > 12 {
+	if j.sample && len(scn.Samples) < 1 && len(ops) > 12 {
 		var ls []string
 		for _, l := range m.lines {
 			ls = append(ls, l.String())
 		}
 		scn.Sample(map[string]interface{}{
-			"history": h, "min_compact": minCompact, "reference_lines": strings.Join(ls, " / "),
+			"history": j.label, "min_compact": minCompact, "reference_lines": strings.Join(ls, " / "),
 			"file_operations": strings.TrimSpace(c11opList(ops, 0, len(ops))), "crash_points": len(ops) + 1,
 			"final_state": m.states[n],
 		})
 	}
 	if w != n && len(r.x.Panics) == 0 {
-		ctx.Note("C11 self-check: history %q minCompact=%d: after shutdown the file holds line index %d of %d", h, minCompact, w, n)
+		ctx.Note("C11 self-check: %s minCompact=%d: after shutdown the file holds line index %d of %d", j.label, minCompact, w, n)
 	}
 }
 
